@@ -119,10 +119,16 @@ func init() {
 
 		// ---- errors / fmt / math
 		"errors.Is":   errorsIs,
+		"errors.As":   errorsAs,
 		"fmt.Sprintf": fmtSprintf,
 		"fmt.Errorf":  fmtErrorf,
 		"fmt.Sprint":  fmtSprint,
 		"math.Trunc":  mathTrunc,
+		"math.Floor":       mathRound(OpFpRTN),
+		"math.Ceil":        mathRound(OpFpRTP),
+		"math.RoundToEven": mathRound(OpFpRNE),
+		"math.Round":       mathRound(OpFpRNA),
+		"math.Abs":         mathRound(OpFpAbs),
 		"strconv.Itoa": func(in *Interp, fr *frame, fn *ssa.Function, a []Value) (Value, bool) {
 			x := a[0].(SInt)
 			if x.T == nil {
@@ -621,6 +627,75 @@ func (in *Interp) errIs(fr *frame, err, target Iface, comparable bool) bool {
 	}
 }
 
+// errors.As from its documented contract: the first error in the chain that
+// is assignable to the target's element type (or whose As method accepts the
+// target) is stored there.
+func errorsAs(in *Interp, fr *frame, fn *ssa.Function, a []Value) (Value, bool) {
+	err := in.resolveIface(fr, a[0])
+	target := in.resolveIface(fr, a[1])
+	if target.T == nil {
+		panic(&targetPanic{v: Iface{}, msg: "errors: target cannot be nil", site: fr.servitorSite()})
+	}
+	pt, isPtr := target.T.Underlying().(*types.Pointer)
+	if !isPtr || target.V == nil || target.V.(Ptr) == nil {
+		panic(&targetPanic{v: Iface{}, msg: "errors: target must be a non-nil pointer", site: fr.servitorSite()})
+	}
+	if err.T == nil {
+		return SBool{V: false}, true
+	}
+	return SBool{V: in.errAs(fr, err, target, pt.Elem())}, true
+}
+
+func (in *Interp) errAs(fr *frame, err, target Iface, elem types.Type) bool {
+	for {
+		assignable := false
+		if it, isI := elem.Underlying().(*types.Interface); isI {
+			assignable = in.implements(err.T, it)
+		} else {
+			assignable = types.Identical(err.T, elem)
+		}
+		if assignable {
+			p := target.V.(Ptr)
+			if _, isI := elem.Underlying().(*types.Interface); isI {
+				*p = err
+			} else {
+				*p = copyVal(err.V)
+			}
+			return true
+		}
+		if sig := in.methodSig(err.T, "As"); sig != nil && sig.Params().Len() == 1 && sig.Results().Len() == 1 && isBoolType(sig.Results().At(0).Type()) {
+			r, _ := in.callMethod(fr, err, "As", target)
+			if in.truth(r.(SBool)) {
+				return true
+			}
+		}
+		sig := in.methodSig(err.T, "Unwrap")
+		if sig == nil || sig.Params().Len() != 0 || sig.Results().Len() != 1 {
+			return false
+		}
+		r, _ := in.callMethod(fr, err, "Unwrap")
+		switch sig.Results().At(0).Type().Underlying().(type) {
+		case *types.Interface:
+			next := in.resolveIface(fr, r)
+			if next.T == nil {
+				return false
+			}
+			err = next
+		case *types.Slice:
+			s := r.(Slice)
+			for i := 0; i < s.L; i++ {
+				e := in.resolveIface(fr, s.B[i])
+				if e.T != nil && in.errAs(fr, e, target, elem) {
+					return true
+				}
+			}
+			return false
+		default:
+			return false
+		}
+	}
+}
+
 // ---- math
 
 func mathTrunc(in *Interp, fr *frame, fn *ssa.Function, a []Value) (Value, bool) {
@@ -629,6 +704,16 @@ func mathTrunc(in *Interp, fr *frame, fn *ssa.Function, a []Value) (Value, bool)
 		return SFloat{V: math.Trunc(f.V), W: 64}, true
 	}
 	return in.mkFloatT(in.tb.FpUn(OpFpRTZ, f.T)), true
+}
+
+func mathRound(op Op) intrinsic {
+	return func(in *Interp, fr *frame, fn *ssa.Function, a []Value) (Value, bool) {
+		f := a[0].(SFloat)
+		if f.T == nil {
+			return SFloat{V: fpRoundConst(op, f.V), W: 64}, true
+		}
+		return in.mkFloatT(in.tb.FpUn(op, f.T)), true
+	}
 }
 
 var _ = fmt.Sprintf
